@@ -262,7 +262,11 @@ def _compile_files_cache(filenames,
 
     for filename in filenames:
         with open(filename, 'rb') as fin:
-            key.append(fin.read())
+            data = fin.read()
+
+        # The length keeps file boundaries unambiguous.
+        key.append('{}:'.format(len(data)).encode('ascii'))
+        key.append(data)
 
     key = b''.join(key)
     cache = diskcache.Cache(cache_dir)
